@@ -199,6 +199,12 @@ func (g *gen) genInits() {
 		return
 	}
 	k := g.rng(1, 2, "ninit")
+	if k > 1 && !g.on(kMultiInit) {
+		k = 1
+	}
+	if k > 1 {
+		g.mark("multi-init")
+	}
 	for i := 0; i < k; i++ {
 		g.f = &fctx{sig: &fsig{safe: true}, noPanic: true, inInit: true, budget: 150, mult: 1}
 		g.push()
